@@ -12,6 +12,9 @@ def run(tier, seed):
     lens = [1, 2, 3, 4] if tier == "quick" else [1, 2, 3, 4, 10]
     job = hist_job("C06", lens, NAMES, unwind=14)
     obs = job.run()
+    if tier == "quick":
+        # the exported Histogram10 (the crate's own instantiation): find/add against the bin contract as well
+        obs += hist_job("C06", [10], NAMES[:1], unwind=14, timeout=900, harness_timeout=600).run()
     if tier == "thorough":
         j2 = hist_const_job("C06", [1, 3], NAMES, unwind=8)
         obs += j2.run()
@@ -25,6 +28,7 @@ def run(tier, seed):
                                      "Histogram::range_min", "Histogram::range_max"],
         "source_files": [F, FC, "src/lib.rs"],
         "assumptions": [
+            "find.iff_bin_unique additionally for LEN = 10 (average::Histogram10) in the quick tier",
             "configurations: LEN in %s (complete per LEN: edges are LEN+1 fully symbolic f64 constrained only by validity, "
             "x is every f64); other LEN are not covered by this run" % lens,
             "is_valid(histogram) = edges without NaN and non-decreasing, which C12 proves is exactly what from_ranges/with_const_width produce",
